@@ -60,7 +60,7 @@ def shard_fn(shard, nshards, seed, tier, exe, npairs):
         cid = "%d.%d" % (shard, i)
         cases.append((cid, cmds))
         meta[cid] = scheds
-    results, crashes = core.run_script(exe, cases, tag="c17")
+    results, crashes = core.run_script(exe, cases, tag="c17", env=core.ambient_env(sh, shard))
     cmdmap = dict(cases)
     for cr in crashes:
         kind, frame = cr.summary()
